@@ -9,6 +9,7 @@ use serde_json::json;
 use std::cell::RefCell;
 use std::path::{Path, PathBuf};
 use std::sync::{Arc, Mutex};
+use std::time::Duration;
 use tokio::io::{AsyncReadExt, AsyncWriteExt};
 use tokio_rustls::rustls;
 
@@ -613,6 +614,104 @@ async fn watcher_level(rep: &mut Report, mats: &[Material], base: &Path) {
     let _ = std::fs::remove_dir_all(&dir);
 }
 
+/// Two reloads overlap (in the server binary: the file watcher's task and the SIGHUP handler's task on a multi-threaded
+/// runtime). Reload A is parked at each synchronous point with the pair `first` on disk; the files change to the valid
+/// pair `second`; reload B runs on another thread (it may finish, or wait for A); A resumes. Afterwards: the served
+/// certificate and the reported information belong together, and — B having started after the last disk change and
+/// succeeded — new handshakes are served the pair that is on disk.
+fn overlapping_reloads(rep: &mut Report, mats: &[Material], base: &Path) {
+    let points: [&'static str; 5] = ["tls.before_cert_read", "tls.between_cert_and_key", "tls.after_key_read", "reload.before_info_read", "reload.before_swap"];
+    let rt = tokio::runtime::Builder::new_current_thread().enable_all().build().unwrap();
+    for p in points {
+        for (first, second) in [(1usize, 2usize), (2, 1), (1, 6), (6, 2)] {
+            let name = format!("overlapping reloads: A parked at {p} holding {}, disk changes to {}, reload B", mats[first].name, mats[second].name);
+            rep.case(Some(&name));
+            let dir = base.join(format!("ov-{}-{first}-{second}", p.replace('.', "_")));
+            let _ = std::fs::remove_dir_all(&dir);
+            std::fs::create_dir_all(&dir).unwrap();
+            let st = State { dir: dir.clone(), cert: dir.join("cert.pem"), key: dir.join("key.pem") };
+            std::fs::write(&st.cert, &mats[0].cert_pem).unwrap();
+            std::fs::write(&st.key, &mats[0].key_pem).unwrap();
+            let reloader = match CertReloader::new(CertReloaderConfig { cert_path: st.cert.clone(), key_path: st.key.clone(), watch_enabled: false, debounce_ms: 0, check_expiry: true, expiry_warning_days: 30 }) {
+                Ok(r) => Arc::new(r),
+                Err(e) => {
+                    rep.machinery(format!("{name}: reloader: {e}"));
+                    continue;
+                }
+            };
+            apply_disk(&Op::WritePair(first), &st, mats);
+            let b_slot: Arc<Mutex<Option<std::sync::mpsc::Receiver<Result<(), String>>>>> = Arc::new(Mutex::new(None));
+            let b_done_early: Arc<Mutex<Option<Result<(), String>>>> = Arc::new(Mutex::new(None));
+            {
+                let st2 = State { dir: st.dir.clone(), cert: st.cert.clone(), key: st.key.clone() };
+                let mats2 = mats.to_vec();
+                let r2 = reloader.clone();
+                let b_slot = b_slot.clone();
+                let b_done_early = b_done_early.clone();
+                MID.with(|m| {
+                    *m.borrow_mut() = Some((
+                        p,
+                        Box::new(move || {
+                            apply_disk(&Op::WritePair(second), &st2, &mats2);
+                            let (tx, rx) = std::sync::mpsc::channel();
+                            std::thread::spawn(move || {
+                                let _ = tx.send(r2.reload().map_err(|e| e.to_string()));
+                            });
+                            // B either finishes while A is parked, or waits for A (serialised reloads)
+                            match rx.recv_timeout(Duration::from_millis(300)) {
+                                Ok(r) => *b_done_early.lock().unwrap() = Some(r),
+                                Err(_) => *b_slot.lock().unwrap() = Some(rx),
+                            }
+                        }),
+                    ))
+                });
+            }
+            let ra = reloader.reload().map_err(|e| e.to_string());
+            MID.with(|m| *m.borrow_mut() = None);
+            let rb = match b_done_early.lock().unwrap().take() {
+                Some(r) => Some(r),
+                None => match b_slot.lock().unwrap().take() {
+                    Some(rx) => rx.recv_timeout(Duration::from_secs(10)).ok(),
+                    None => None,
+                },
+            };
+            let Some(rb) = rb else {
+                rep.violation("C18:reload-blocks", &format!("{name}: reload B did not return within 10 s after reload A had finished"), json!({"engine": "BX", "case": name}));
+                continue;
+            };
+            let now = match rt.block_on(snapshot(&reloader)) {
+                Ok((s, _)) => s,
+                Err(e) => {
+                    rep.violation("C18:handshake-fails", &format!("{name}: {e}"), json!({"engine": "BX", "case": name}));
+                    continue;
+                }
+            };
+            let served = mats.iter().position(|m| m.der == now.leaf);
+            let ctx = format!("{name}: reload A -> {:?}, reload B -> {:?}", ra.as_ref().map(|_| "ok"), rb.as_ref().map(|_| "ok"));
+            match served {
+                None => rep.violation("C18:unknown-certificate-served", &ctx, json!({"engine": "BX", "case": name})),
+                Some(x) => {
+                    let want = mats[x].info_key.trim_start_matches('0').to_string();
+                    if now.info_serial.as_deref() != Some(want.as_str()) {
+                        rep.violation("C18:reported-info-not-of-active-certificate", &format!("{ctx}: the active certificate is {} ({want}), get_cert_info() reports {:?}", mats[x].name, now.info_serial), json!({"engine": "BX", "case": name}));
+                    }
+                    if rb.is_ok() && x != second {
+                        rep.violation("C18:successful-reload-not-used:overlapping-reloads", &format!("{ctx}: reload B started after the files had changed to {} and succeeded, yet new handshakes are served {} (the reload that started earlier, with the older files, finished last and put them back)", mats[second].name, mats[x].name), json!({"engine": "BX", "case": name}));
+                    }
+                    if x != first && x != second {
+                        rep.violation("C18:served-certificate-never-loaded-as-pair", &ctx, json!({"engine": "BX", "case": name}));
+                    }
+                }
+            }
+            let ok_n = ra.is_ok() as u64 + rb.is_ok() as u64;
+            if now.count != ok_n {
+                rep.violation("C18:reload-count", &format!("{ctx}: count {} after {ok_n} successful reload(s)", now.count), json!({"engine": "BX", "case": name}));
+            }
+            let _ = std::fs::remove_dir_all(&dir);
+        }
+    }
+}
+
 pub fn run(tier: Tier) -> i32 {
     let mut rep = Report::new("C18", tier, "fault_enumeration");
     let thorough = tier.is_thorough();
@@ -734,6 +833,7 @@ pub fn run(tier: Tier) -> i32 {
             }
         }
     }
+    overlapping_reloads(&mut rep, &mats, &base);
     {
         let rt = tokio::runtime::Builder::new_multi_thread().worker_threads(2).enable_all().build().unwrap();
         rt.block_on(server_level(&mut rep, &mats, &base));
